@@ -118,6 +118,15 @@ def link_events(prog, func, inline=True):
         for sub in _walk_stmt(st):
             if isinstance(sub, ast.Call) and isinstance(sub.func, ast.Attribute):
                 owner = _children_owner(sub.func.value)
+                if owner is None and isinstance(sub.func.value, ast.Name) and sub.func.attr in (
+                        'append', 'insert', 'remove', 'sort', 'extend', 'pop', 'clear', 'reverse'):
+                    # a local alias of a stored child list:  siblings = parent.children; siblings.append(x)
+                    d = single_def(func, sub.func.value.id, n.id)
+                    if d and d[0] != 'param' and isinstance(d[1], ast.AST) and _children_owner(d[1]) is not None \
+                            and path(d[1]) is not None:
+                        from .core import no_kill_between
+                        if no_kill_between(cfg, d[0], n.id, [path(d[1])]):
+                            owner = _children_owner(d[1])
                 if owner is None:
                     continue
                 m = sub.func.attr
@@ -269,6 +278,15 @@ def fresh_paths(prog, func):
     return fresh
 
 
+def strip_copy(e):
+    """list(x) / tuple(x) / iter(x) hand out the same elements in the same order as x: for the question *which*
+    values a loop variable takes they are transparent."""
+    while isinstance(e, ast.Call) and isinstance(e.func, ast.Name) and e.func.id in ('list', 'tuple', 'iter') \
+            and len(e.args) == 1 and not e.keywords:
+        e = e.args[0]
+    return e
+
+
 def name_defs(func, name):
     """All (cfg node id, value ast | ('iter', iter ast, target ast) | None) definitions of a local."""
     cfg = func.cfg
@@ -296,7 +314,7 @@ def name_defs(func, name):
         elif n.kind == 'iter':
             for sub in ast.walk(n.ast.target):
                 if isinstance(sub, ast.Name) and sub.id == name:
-                    out.append((n.id, ('iter', n.ast.iter, n.ast.target)))
+                    out.append((n.id, ('iter', strip_copy(n.ast.iter), n.ast.target)))
         elif n.kind == 'with':
             for item in n.ast.items:
                 if item.optional_vars is not None:
